@@ -60,3 +60,162 @@ Proof. intros. unfold dp_retry_exhausted. apply Z.ltb_lt. Qed.
 Example C08_new_is_first : forall a o i q d,
   pe_fcb (periph_new a o i q d) = FcbFirst /\ pe_state (periph_new a o i q d) = PsOffline.
 Proof. intros. split; reflexivity. Qed.
+
+(* ====================================================================================================
+   C08 (phase 2): HISTORY theorems.
+
+   Histories (Proofs/DpHistory.v): `history pa a o tr` = tr is the wire trace of ANY sequence of calls
+   (transmit_telegram in any operating state, receive_reply with ANY telegram -- accepted, well-formed but
+   rejected, SC, wrong SAPs, wrong length --, time-out / abandoned request, request_diagnostics(), pi_q
+   writes, in any order) on a freshly constructed peripheral with address a and options o (any image sizes,
+   any diagnostics buffer) that does not panic and respects the FdlApplication contract projected to one
+   peripheral (`contract_p`: a reply or a time-out only while a request is outstanding, at most one per
+   request).  Wire trace events: WReq h pdu (request), WReply t ev (reply delivered, event it raised),
+   WTimeout, WIdle (transmit_telegram had nothing to send), WEvent ev (it raised an event instead), WUser.
+   "Accepted reply" is the standard's view DpOracle.reply_accepted (Slave_Diag: data from SSAP 60 to DSAP 62
+   with >= 6 bytes; Set_Prm / Chk_Cfg: SC; Data_Exchange: any response or SC); receive_facts (DpHistory.v)
+   proves that the code accepts exactly those.
+   All theorems: every max_retry_limit >= 1 (the builder admits 1..15), every address, all option values.
+   Two requests are CONSECUTIVE when the events between them (`mid`) contain no request and no Offline event
+   (`quiet mid`). *)
+From PB Require Import DpOracle DpHistory C08Proofs.
+
+(* The first request after start-up or after an Offline event ("first" made explicit: every earlier request
+   of the trace was followed by an Offline event) is a Slave_Diag request (DSAP 60 from SSAP 62, SRD low, no
+   payload) with FCV=0/FCB=1: function code byte 0x6C.
+   After fix F18 the frame count bit is ALSO First again on every probe that follows an unanswered probe of a
+   peripheral that is not live: see C08_offline_then_probes; such a probe is a retransmission in the sense of
+   C08_same_bit_only_retransmission (same service, same destination, no acceptable reply in between). *)
+Theorem C08_first : forall pa a o tr,
+  1 <= p_max_retry pa -> history pa a o tr ->
+  forall pre h pdu post,
+  tr = pre ++ WReq h pdu :: post ->
+  (forall pre1 h1 pdu1 post1, pre = pre1 ++ WReq h1 pdu1 :: post1 -> In (WEvent EvOffline) post1) ->
+  h = mkHeader a (p_address pa) (Some 60) (Some 62) (FcRequest FcbFirst RqSrdLow) /\ pdu = [] /\
+  fc_to_byte (h_fc h) = 108.
+Proof. exact first_request. Qed.
+Print Assumptions C08_first.
+
+(* Two consecutive requests carry the same frame count bit only if the second is a retransmission: no
+   acceptable reply arrived in between, same service, same destination -- and then even the same function
+   code byte, except that a probe of a peripheral that is not live may carry FCV=0/FCB=1 again (F18). *)
+Theorem C08_same_bit_only_retransmission : forall pa a o tr,
+  1 <= p_max_retry pa -> history pa a o tr ->
+  forall pre h1 pdu1 mid h2 pdu2 post,
+  tr = pre ++ WReq h1 pdu1 :: mid ++ WReq h2 pdu2 :: post ->
+  (forall e, In e mid -> is_req e = false /\ is_offline e = false) ->
+  forall f1 rq1 f2 rq2,
+  h_fc h1 = FcRequest f1 rq1 -> h_fc h2 = FcRequest f2 rq2 ->
+  fcbit_fcb f1 = fcbit_fcb f2 ->
+  existsb (fun e => match e with WReply t _ => reply_accepted (classify h1) t | _ => false end) mid = false /\
+  classify h2 = classify h1 /\ h_da h2 = h_da h1 /\
+  (h_fc h2 = h_fc h1 \/ (f2 = FcbFirst /\ classify h2 = SvDiag)).
+Proof. exact same_bit_only_retransmission. Qed.
+Print Assumptions C08_same_bit_only_retransmission.
+
+(* Every request that follows an accepted reply (to the previous request) toggles the bit with FCV=1. *)
+Theorem C08_toggle_history : forall pa a o tr,
+  1 <= p_max_retry pa -> history pa a o tr ->
+  forall pre h1 pdu1 mid h2 pdu2 post,
+  tr = pre ++ WReq h1 pdu1 :: mid ++ WReq h2 pdu2 :: post ->
+  (forall e, In e mid -> is_req e = false /\ is_offline e = false) ->
+  existsb (fun e => match e with WReply t _ => reply_accepted (classify h1) t | _ => false end) mid = true ->
+  exists f1 rq1 f2 rq2, h_fc h1 = FcRequest f1 rq1 /\ h_fc h2 = FcRequest f2 rq2 /\
+    fcbit_fcv f2 = true /\ fcbit_fcb f2 = negb (fcbit_fcb f1).
+Proof. exact toggle_history. Qed.
+Print Assumptions C08_toggle_history.
+
+(* An unanswered request is transmitted at most 1 + max_retry_limit times: in any stretch `mid` after a
+   request in which no reply is accepted for its service and transmit_telegram neither idles nor raises an
+   event, at most max_retry further requests occur (all of them retransmissions by the theorem above). *)
+Theorem C08_retry_bound : forall pa a o tr,
+  1 <= p_max_retry pa -> history pa a o tr ->
+  forall pre h pdu mid post,
+  tr = pre ++ WReq h pdu :: mid ++ post ->
+  (forall e, In e mid ->
+     match e with
+     | WIdle | WEvent _ => False
+     | WReply t _ => reply_accepted (classify h) t = false
+     | _ => True
+     end) ->
+  1 + count_req mid <= 1 + p_max_retry pa.
+Proof. exact retry_bound. Qed.
+Print Assumptions C08_retry_bound.
+
+(* transmit_telegram raises no event but Offline, and raises it exactly when the retries have run out: the
+   trace before it ends with a request that stayed unanswered through exactly 1 + max_retry transmissions *)
+Theorem C08_offline_when_exhausted : forall pa a o tr,
+  1 <= p_max_retry pa -> history pa a o tr ->
+  forall pre ev post,
+  tr = pre ++ WEvent ev :: post ->
+  ev = EvOffline /\
+  exists pre0 h pdu mid, pre = pre0 ++ WReq h pdu :: mid /\ unanswered_seg (classify h) mid /\
+    1 + count_req mid = 1 + p_max_retry pa.
+Proof. exact offline_when_exhausted. Qed.
+Print Assumptions C08_offline_when_exhausted.
+
+(* ... and after 1 + max_retry unanswered transmissions the next turn does raise it: transmit_telegram
+   neither sends another request nor idles *)
+Theorem C08_exhausted_then_offline : forall pa a o tr,
+  1 <= p_max_retry pa -> history pa a o tr ->
+  forall pre h pdu mid e post,
+  tr = pre ++ WReq h pdu :: mid ++ e :: post ->
+  unanswered_seg (classify h) mid ->
+  1 + count_req mid = 1 + p_max_retry pa ->
+  e <> WIdle /\ (forall h2 pdu2, e <> WReq h2 pdu2).
+Proof. exact exhausted_then_offline. Qed.
+Print Assumptions C08_exhausted_then_offline.
+
+(* After the Offline event, until a diagnostics reply is accepted: exactly one Offline event (no further
+   event), and the peripheral is only probed: every request is a Slave_Diag request with FCV=0/FCB=1 (0x6C)
+   and no payload, and no probe is repeated in the turn in which it went unanswered -- the transmit_telegram
+   turn before it was idle (`turn_open mid = false`; the DP master ends the peripheral's turn of the cycle on
+   an idle turn): one probe per DP cycle. *)
+Theorem C08_offline_then_probes : forall pa a o tr,
+  1 <= p_max_retry pa -> history pa a o tr ->
+  forall pre mid e post,
+  tr = pre ++ WEvent EvOffline :: mid ++ e :: post ->
+  (forall t ev, In (WReply t ev) mid -> reply_accepted SvDiag t = false) ->
+  match e with
+  | WEvent _ => False
+  | WReq h pdu =>
+      h = mkHeader a (p_address pa) (Some 60) (Some 62) (FcRequest FcbFirst RqSrdLow) /\ pdu = [] /\
+      fc_to_byte (h_fc h) = 108 /\ turn_open mid = false
+  | _ => True
+  end.
+Proof. exact offline_then_probes. Qed.
+Print Assumptions C08_offline_then_probes.
+
+(* the engine: the invariant holds initially and EVERY call from EVERY state satisfying it preserves it and
+   emits an event the monitor accepts *)
+Theorem C08_invariant_step : forall pa a o p g c p' e,
+  1 <= p_max_retry pa ->
+  Inv pa a o p g ->
+  p_step pa p c = Ok (p', e) ->
+  contract_p (gh_out g) [e] = true ->
+  Inv pa a o p' (gstep g e) /\ ev_ok pa a o g e.
+Proof. exact step_inv. Qed.
+Print Assumptions C08_invariant_step.
+
+(* non-vacuity: a history with max_retry_limit = 1 showing every clause: first probe 0x6C, accepted reply,
+   Set_Prm with the toggled bit, time-out, retransmission with the same function code, a reply that is not
+   accepted, a user call, the Offline event after 1 + 1 transmissions, a first probe again, time-out, idle *)
+Example C08_history_example :
+  let pa := mkParams 2 B19200 100 32436 10 126 1 11 None in
+  let o := mkOpts 4660 false false 0 100 false (Some [170]) (Some [17]) in
+  let diag := TData (mkHeader 2 7 (Some 62) (Some 60) (FcResponse RsSlave StDataLow)) [0; 0; 0; 2; 18; 52] in
+  let junk := TData (mkHeader 2 7 None None (FcResponse RsSlave StOk)) [] in
+  let probe := WReq (mkHeader 7 2 (Some 60) (Some 62) (FcRequest FcbFirst RqSrdLow)) [] in
+  let prm := WReq (mkHeader 7 2 (Some 61) (Some 62) (FcRequest FcbLow RqSrdLow)) [128; 0; 0; 11; 18; 52; 0; 170] in
+  history pa 7 o
+    [probe; WReply diag (Some EvOnline); prm; WTimeout; prm; WReply junk None; WUser; WEvent EvOffline;
+     probe; WTimeout; WIdle].
+Proof.
+  exists [0], [0], 0%nat,
+    [PcTransmit OpOperate;
+     PcReply (TData (mkHeader 2 7 (Some 62) (Some 60) (FcResponse RsSlave StDataLow)) [0; 0; 0; 2; 18; 52]);
+     PcTransmit OpOperate; PcTimeout; PcTransmit OpOperate;
+     PcReply (TData (mkHeader 2 7 None None (FcResponse RsSlave StOk)) []); PcReqDiag;
+     PcTransmit OpOperate; PcTransmit OpOperate; PcTimeout; PcTransmit OpOperate].
+  eexists. split; vm_compute; reflexivity.
+Qed.
